@@ -170,7 +170,7 @@ pub fn run_case(case: &Case) -> (Vec<Violation>, Guards) {
             let tl = desc.transfer_length;
             let oti = o.oti.as_ref().unwrap_or(&case.sess.oti);
             let maxl = max_transfer_length(oti);
-            match sender.add_object(o.prio, desc) {
+            match add_tallied(&mut sender, o.prio, desc, &case.sess.oti) {
                 Ok(toi) => accepted.push((toi, i, tl)),
                 Err(e) => {
                     // a refusal is always allowed by the property (the object is then not "accepted");
